@@ -23,6 +23,7 @@
 //!   float argument F = f:<base>:<signif hex int>:<exp dec>:<precision dec>:<mode Z|A|U|D|E|H>
 //!   float result     = <signif hex> <exp dec> <precision dec>
 //!   f.parse d:base M S              FromStr / from_str_native / Repr::from_str_native at base, mode M -> result | err Kind
+//!   f.with_precision F d:p          FBig::with_precision -> <signif> <exp> <prec> Exact|Inexact:<Rounding>
 //!   f.fmt K P W FL F                K = disp | lexp | uexp | bin | oct | lhex | uhex | dbg | dbga | rdbg | rdbga ; P = none | d:precision ;
 //!                                   W = none | d:width ; FL = - | + | 0 | +0 | < | ^ | > | *< | *^ | *> | +*^ | 0< -> s:bytes
 //!   f.rt F                          to_string() then parse: -> `<text s:bytes> <result of the parse>`
@@ -677,6 +678,11 @@ fn frun<R: Round, const B: Word>(op: &str, args: &[&str]) -> Res {
             }
             merge(&names, rs)
         }
+        "f.with_precision" => {
+            let a = build::<R, B>(&p_farg(arg(args, 0)?)?);
+            let p = p_usize(arg(args, 1)?)?;
+            merge(&["with_precision"], vec![run1t(|| fr(&a.clone().with_precision(p)))])
+        }
         "f.rt" => {
             let a = build::<R, B>(&p_farg(arg(args, 0)?)?);
             merge(
@@ -977,7 +983,7 @@ pub fn dispatch_float(op: &str, args: &[&str]) -> Option<Res> {
                     _ => fbase_table!(frun, a.base, a.mode, op, args),
                 }
             }
-            "f.rt" => {
+            "f.rt" | "f.with_precision" => {
                 let a = p_farg(arg(args, 0)?)?;
                 fbase_table!(frun, a.base, a.mode, op, args)
             }
